@@ -183,7 +183,7 @@ var c01Calls = []call{
 	{Kind: "delete"},
 }
 
-var c01Targets = []string{"a", "ab", "zz", "_internal/x"}
+var c01Targets = []string{"a", "ab", "zz", "_internal/x", " a"}
 
 func checkC01(t *testing.T, env *report.Env, rep *report.Report) {
 	depth := 2
